@@ -111,7 +111,7 @@ CLAIMS = {
              "value, falsy ones included): Table.write(r, c, default) is called for exactly the cells of the inserted block and no other "
              "(loop invariants over a ghost call map, grid abstracted away; Table.write itself is C12's contract). Table and sheet "
              "additions, isolation across tables/documents and save/reopen equality: bounded lock-step reference-grid stand-in.",
-        text2="Re-verified here: C07's recalculate_table_data / recalculate_row_info contracts (a table grown past one 256-row tile is stored completely).",
+        text2="Re-verified here: C07's recalculate_table_data / recalculate_row_info contracts (a table grown past one 256-row tile is stored completely). Document.save (C16's contract) and the structural obligation that a table added by add_table owns every list the library allocates keys in.",
         note="Assumes: T-INV+ as class invariant, Cell._empty_cell returns a freshly allocated cell carrying its coordinates (assumed "
              "contract + allocation model), model.number_of_rows/columns only record sizes, default=None in the add_* proofs. One "
              "genuine defect repaired (count validation). Trusted: " + TB,
@@ -189,7 +189,7 @@ CLAIMS = {
              "any number of sheets/tables with sibling-unique names the chosen qualification resolves to the stored table only and no "
              "shorter one does. Header labels, whole-row/column tracts, cross-table UUID lookup, quoting, and rename/relabel histories: "
              "bounded stand-in with an independent resolver, so the level is not 'proof'.",
-        text2="Also: ScopedNameRefCache._column_data/_row_data: the label of a column / row is the cell in the bottom header row / last header column (any number of header rows and columns).",
+        text2="Also: ScopedNameRefCache._column_data/_row_data: the label of a column / row is the cell in the bottom header row / last header column (any number of header rows and columns). _format_row_span/_format_column_span for label spans: the qualification is dropped iff one of the two labels is document-unique.",
         note="Assumes: protobuf nodes as records with HasField; CellRange(...) records its keyword arguments; naming functions uninterpreted "
              "in the lemmas. Trusted: " + TB,
         technique="contract-based deductive verification (path-complete symbolic execution of node_to_ref/expand_ref/_format_cell_range + "
@@ -240,6 +240,7 @@ CLAIMS = {
              "target of a reference (no orphan objects: what was meant to point at a new object cannot silently keep pointing at the object it "
              "was cloned from). Reference closure and whole-package structure: bounded "
              "stand-in with an independent validator - it reports one open known finding, so the level is not 'proof'.",
+        text2="Also: Shared with C15: the cell-style de-duplication key reads every attribute and keeps the fields apart; the validator reports data files no record describes.",
         note="Assumes ghost records for protobuf messages and the store dicts, C04's record-length facts, <= 1000 columns. Open known finding "
              "F-C07-1 (null category_owner reference in tables the library creates; deliberate in the source). Trusted: " + TB,
         technique="contract-based deductive verification (nested loop invariants, prefix-sum spec functions with induction lemmas, symbolic "
@@ -260,7 +261,7 @@ CLAIMS = {
              "channel values survive the stored c/255 form, "
              "font family and name tables are mutually inverse. Stroke runs in the file, style archives, merged cells and reload: bounded "
              "stand-in with a last-writer-wins edge model, so the level is not 'proof'.",
-        text2="Also: update_paragraph_style: every text field of an existing archive takes the style's current value (17 fields, also 0.0 / False).",
+        text2="Also: update_paragraph_style: every text field of an existing archive takes the style's current value (17 fields, also 0.0 / False). Table.set_cell_border for each side (the stroke recorded once, exactly `length` cells updated, the k-th at offset k); structural obligations: the style key keeps its fields apart, an added table owns every keyed list.",
         note="Assumes Border/CellBorder as heap records, cell_for_stroke uninterpreted, dataclass init through __setattr__. Genuine defects "
              "repaired: fix: commits 6c9657a (stroke ordered after the cells were updated: second stroke over an edge ignored by the open "
              "document) and 85673dd (reading cell.style marked the style as changed). Trusted: " + TB,
@@ -277,7 +278,7 @@ CLAIMS = {
              "writer drifts; complete syntactic obligation (shared with C07) that every object add_table creates is made the target of a reference, so a "
              "new table has its own header storage. The readers' float arithmetic, names, captions, header counts, coordinates and whole documents over 1..3 cycles: "
              "bounded stand-in, so the level is not 'proof'.",
-        text2="Also: Complete frame obligation: the stored header counts are assigned only in their two setters.",
+        text2="Also: Complete frame obligation: the stored header counts are assigned only in their two setters. Document.save: every table that is not a pivot table is handed to recalculate_table_data exactly once with its own grid, the model saved once; row_height / col_width (readers) == floor(round_half_even(stored size or default) + border allowance) under A-REAL.",
         note="Assumes ghost records for protobuf header lists and session caches, sizes as integers, floor(border allowance) uninterpreted. Genuine "
              "defect repaired: fix: commit 08975f9 (unqueried row heights were written as 0.0 = default; sizes of bordered rows/columns grew on "
              "every save). Trusted: " + TB,
@@ -296,7 +297,7 @@ CLAIMS = {
              "for clock fields; every day of 33 years incl. century years for date fields - a sample of the date domain); format validation "
              "uses the same table. Arbitrary compositions of parts and _duration_format (float division per unit) are a bounded stand-in with "
              "an independent oracle and a display-parse-back check, so the level is not 'proof'.",
-        text2="Also: Cell._duration_format for every whole number of seconds below 2**53, explicit units, short and long style: the components are the mixed-radix digits of the duration over the shown units (lemma FDIV-TRUNC assumed and sampled).",
+        text2="Also: Cell._duration_format for every whole number of seconds below 2**53, explicit units, short and long style: the components are the mixed-radix digits of the duration over the shown units (lemma FDIV-TRUNC assumed and sampled). Under A-REAL (floats as reals) the same for every duration >= 0 with the millisecond component to the nearest, and _auto_units for durations with a fraction of a second.",
         note="str.isalpha on one character is uninterpreted except that the quote is not a letter; _decode_date_format_field total by assumption. "
              "Genuine defects repaired: fix: commits d3185f4 (k/kk printed 124 for 10:00), 2615b0e (automatic units for whole weeks), 6291058 "
              "(escaped quote emitted before the pending directive), e49d46d (documentation of y). Trusted: " + TB,
@@ -314,6 +315,7 @@ CLAIMS = {
              "and fraction formats is decided by a bounded stand-in with an independent decimal/fraction/base reader: no contract within reach "
              "can express it, because the digits come from the third-party sigfig package, float '%E' formatting, Fraction.limit_denominator and "
              "bin()/oct()/hex() (two's complement).",
+        text2="Also: Sampled ground check of _twos_complement (every v in [-70000,-1] and around each power of two up to 2**52).",
         note="Genuine defects repaired: fix: commits 1caf0ad (decimals dropped / exponent spelling near zero), d45fa3f (accounting style ate a "
              "digit), b42f721 (fraction carry and negative whole parts). Trusted: " + TB,
         technique="bounded run-time-contract stand-in with an independent oracle (the deciding method for the numeric relation) + contract-based "
@@ -329,6 +331,7 @@ CLAIMS = {
              "saves once. The grid round trip (text identical, numbers numerically equal, special floats stay text, "
              "--no-header/--whitespace/--reverse) is decided by a bounded stand-in with Python's csv module as the reference: no contract "
              "within reach expresses it (csv module, float() parsing of arbitrary spellings, document round trip).",
+        text2="Also: Structural: a coerced field is the result of float(); csv.reader gets no formatting parameter beyond the dialect.",
         note="Open known finding F-C20-1 (repeated header cells collapse columns; a repair is a redesign of the row representation). Genuine defects "
              "repaired: fix: commits 6f0ba33 (nan/inf/1e400 crashed the converter), 69b895c (CR inside quoted cells became LF), 424d4db (empty "
              "file crashed). Trusted: " + TB,
